@@ -32,5 +32,5 @@ print("CONFLICTS (both sides changed since %s):" % base, *conflicts, sep="\n  ")
 if apply:
     for rel in changed:
         os.makedirs(os.path.dirname(os.path.join("/verif", rel)) or ".", exist_ok=True)
-        shutil.copy2(os.path.join(src, rel), os.path.join("/verif", rel))
+        shutil.copy(os.path.join(src, rel), os.path.join("/verif", rel))
     print("copied %d files" % len(changed))
